@@ -484,10 +484,36 @@ def statelessBFS (fixed : Bool) (adjE : Nat → List Edge) (d : Dir) (wfilt : Ed
     (fuel : Nat) (root : Nat) : Option (List PTerm × Nat) :=
   travLoop true (ptChildren adjE wfilt maxDepth (pickAt fixed d)) ptIsPath (ptExceeded maxDepth) fuel [⟨root, 0, 0⟩] [] 0
 
+/-! ### proposed repair hooks/C14-fix3.patch (NOT in /repo): every read path of the store honours `DeleteEdge`
+
+`tomb = false` is the code as it is (only `adjacent` consults the tombstones), `tomb = true` the proposal:
+`EachEdge` / `EachAdjacentEdge` / `AdjacentEdges` / `NumEdges` skip tombstoned edge ids, hence so do all
+projections and traversals. -/
+
+def TS.liveB (t : TS) (e : Edge) : Bool := !(t.deleted.contains e.id)
+
+def TS.adjacentEdgesT (tomb : Bool) (t : TS) (n : Nat) (d : Dir) : List Edge :=
+  if tomb then (t.adjacentEdges n d).filter t.liveB else t.adjacentEdges n d
+
+def TS.edgesT (tomb : Bool) (t : TS) : List Edge := if tomb then t.edges.filter t.liveB else t.edges
+
+def TS.numEdgesT (tomb : Bool) (t : TS) : Nat := (t.edgesT tomb).length
+
+def Proj.adjacentEdgesT (tomb : Bool) (p : Proj) (n : Nat) (d : Dir) : List Edge :=
+  (p.origin.adjacentEdgesT tomb n d).filter p.alive
+
+def Proj.adjacentT (tomb fixed : Bool) (p : Proj) (n : Nat) (d : Dir) : List Nat :=
+  (p.adjacentEdgesT tomb n d).map (pickOr fixed n d)
+
+def Proj.numEdgesT (tomb : Bool) (p : Proj) : Nat := ((p.origin.edgesT tomb).filter p.alive).length
+
 /-! ### NumEdges / Degrees / Dimensions -/
 
-/-- `adjacencyMapDigraph.NumEdges` AS IT IS: it returns `s.nodes.Cardinality()`. -/
-def AdjMap.numEdges (g : AdjMap) : Nat := g.nodes.length
+/-- `adjacencyMapDigraph.NumEdges` (hooks/C14-fix2.patch): the cardinalities of the outbound index summed — an
+edge is stored once, under its start node. -/
+def AdjMap.numEdges (g : AdjMap) : Nat := (g.outbound.map (fun kv => kv.2.length)).sum
+/-- `adjacencyMapDigraph.NumEdges` before that repair: it returned `s.nodes.Cardinality()`. -/
+def AdjMap.numEdgesOld (g : AdjMap) : Nat := g.nodes.length
 /-- `csrDigraph.NumEdges`: `len(outAdj)` — distinct (start, end) pairs. -/
 def Csr.numEdges (g : Csr) : Nat := g.outAdj.length
 /-- `triplestore.NumEdges`: `len(edges)` — every triple, tombstoned or not. -/
